@@ -270,10 +270,15 @@ def gen_trace(seed: int, tier: str) -> dict:
                                     observe=0.02, jump=0.0, fork=0.02, warmup=False,
                                     src_fault_rate=0.25 if arm == "fault" else 0.0, fault_rate=0.15 if arm == "fault" else 0.0)
     rs = S("start")
-    deck = rs.choice(["default", "default", "f-shp-picture.pptx", "f-ph-unpopulated-placeholders.pptx", "f-shp-movie-props.pptx", "t-test.pptx"])
+    deck = rs.choice(["default", "default", "f-shp-picture.pptx", "f-ph-unpopulated-placeholders.pptx", "f-shp-movie-props.pptx", "t-test.pptx",
+                      "f-ph-populated-placeholders.pptx", "f-shp-shapes.pptx", "t-test_slides.pptx"])
     pre = [{"op": "add_slide", "layout": rs.choice([6, 8, 8, 1]), "dt": 1.0}, {"op": "add_slide", "layout": 8, "dt": 1.0}]
+    start = {"deck": deck, "form": rs.choice(["stream", "path", "dir"])}
+    if deck != "default" and rs.random() < 0.5:
+        # the deck's media parts as another producer numbers them (holes below the maximum, number 1 free, sparse)
+        start["xform"] = [{"kind": "renumber", "family": "media", "mode": rs.choice(["odd", "shift", "sparse", "reverse"]), "seed": rs.randint(0, 99)}]
     return {"property": ID, "seed": seed, "tier": tier, "config": {"arm": arm, "max_slides": 6},
-            "start": [{"deck": deck, "form": rs.choice(["stream", "path", "dir"])}], "events": pre + events}
+            "start": [start], "events": pre + events}
 
 
 def make_oracles(trace):
@@ -307,6 +312,18 @@ def pinned_traces(tier):
            dict(base, op="c15.add", img=B, src={"via": "stream", "pos": 0}, size="h")]
     out.append({"property": ID, "seed": "index-rebuilt-after-restart", "tier": "pinned", "config": {"pinned": True},
                 "start": [{"deck": "default"}], "events": evs})
+    # media parts numbered with holes (another producer, or objects deleted in PowerPoint): several new distinct images, save, re-open
+    for dk in ("f-shp-picture.pptx", "f-shp-movie-props.pptx", "f-ph-populated-placeholders.pptx", "t-test_slides.pptx"):
+        for mode in ("odd", "shift", "sparse"):
+            evs = [{"op": "add_slide", "layout": 6}]
+            for k in range(5):
+                evs.append(dict(base, op="c15.add", slide=10 ** 6, img={"fmt": ("PNG", "JPEG", "GIF", "BMP", "TIFF")[k], "w": 3 + k, "h": 2, "seed": 40 + k, "mode": "RGB", "dpi": None},
+                                src={"via": "stream", "pos": 0}))
+            evs += [{"op": "checkpoint", "sink": "seekable"}, {"op": "restart"},
+                    dict(base, op="c15.add", slide=10 ** 6, img={"fmt": "PNG", "w": 9, "h": 9, "seed": 77, "mode": "RGB", "dpi": None}, src={"via": "stream", "pos": 0}),
+                    {"op": "checkpoint", "sink": "seekable"}, {"op": "restart"}]
+            out.append({"property": ID, "seed": "media-numbered-with-holes-%s-%s" % (dk, mode), "tier": "pinned", "config": {"pinned": True},
+                        "start": [{"deck": dk, "xform": [{"kind": "renumber", "family": "media", "mode": mode, "seed": 5}]}], "events": evs})
     # every format x dpi class, no size
     evs = [{"op": "add_slide", "layout": 6}]
     for fmt in gens.IMG_FORMATS:
